@@ -136,48 +136,65 @@ def r09_1_order(chk):
                 gen.where, detail_ok=f"{len(got)} records in the mandated order for 2 logical files")
     for q in it.consulted:
         chk.consulted_functions.add(q)
-    # the frame-data generators come from generate_logical_records, built per logical file in the same order
+    # the frame-data generators come from generate_logical_records, built per logical file in the same order:
+    # what is handed to the generator is a list with one entry per logical file, in the order of self.logical_files,
+    # each entry made of that logical file's own _make_multi_frame_data results
+    from ..terms import SELF, A, K, contains, subterms, is_call, call_arg, pp
     glr = df.lookup("generate_logical_records")
-    chk.consult(glr)
-    src = norm(glr.node)
-    ok = "for idx_lf, logical_file in enumerate(self.logical_files)" in src or "enumerate(self.logical_files)" in src
-    apps = [n for n in walk_local(glr.node) if isinstance(n, ast.Call) and isinstance(n.func, ast.Attribute)
-            and n.func.attr == "append" and "multi_frame_data_objects" in norm(n.func.value)]
-    chk.require(ok and len(apps) == 1, "R09.1", "frame-data-built-per-logical-file-in-order",
-                "the per-logical-file lists of frame data are not built by one append per logical file in creation order",
-                glr.where)
+    gs = chk.summary(glr)
+    lfs_t = A(SELF, "logical_files")
+
+    def over_lfs(it):
+        return it == lfs_t or (is_call(it, "enumerate") and it[2] and it[2][0] == lfs_t)
+
+    def per_lf_entry(t, el):
+        # a comprehension of <that logical file>._make_multi_frame_data(...) calls
+        if t[0] != "comp" or t[1] != "list":
+            return False
+        e = t[2]
+        return is_call(e, "_make_multi_frame_data") and e[1][0] == "attr" and contains(e[1][1], el)
+    args = [call_arg(c, 0, "multi_frame_data_objects") for c in gs.all_calls("generator")]
+    ok = bool(args)
+    for a in args:
+        if a is None:
+            ok = False
+        elif a[0] == "comp" and a[1] == "list" and len(a[3]) == 1 and over_lfs(a[3][0][1]) and not a[3][0][2]:
+            el = [x for x in subterms(a[2]) if x[0] == "elem" and x[1] == a[3][0][1]]
+            ok = ok and bool(el) and per_lf_entry(a[2], el[0])
+        elif a in (("list", ()), ("call", ("global", "list"), (), ())):
+            apps = [e for e in gs.effects if e.kind == "call" and is_call(e.value, "append") and e.value[1][1] == a
+                    and contains(e.value, lambda x: is_call(x, "_make_multi_frame_data"))]
+            ok = ok and len(apps) == 1 and not apps[0].pc and len(apps[0].loops()) == 1 and \
+                apps[0].loops()[0][0] == "for" and over_lfs(apps[0].loops()[0][2]) and \
+                per_lf_entry(apps[0].value[2][0], ("elem", apps[0].loops()[0][2], apps[0].loops()[0][1]))
+        else:
+            ok = False
+    chk.require(ok, "R09.1", "frame-data-built-per-logical-file-in-order",
+                "the per-logical-file lists of frame data handed to the record generator are not built with one entry per "
+                "logical file, in creation order, from that logical file's own frame data", glr.where)
 
 
 def r09_2_registry(chk):
+    """Every store of a set into the registry happens on a path that established that the (class, name) slot was free
+    (`name not in <slot dict>` / `<looked-up set> is None`) - read off the value-flow summaries of the registry class."""
+    from ..terms import SELF, NONE, contains, pp, is_call
     ix = chk.ix
     reg = ix.get_class("EFLRSetsDict")
     n = 0
     for name, f in reg.methods.items():
-        stores = [x for x in walk_local(f.node) if isinstance(x, ast.Assign)
-                  and any(isinstance(t, ast.Subscript) for t in x.targets)]
-        if not stores:
-            continue
-        chk.consult(f)
-        g = CFG(f.node)
-        for s in stores:
+        su = chk.summary(f)
+        stores = [e for e in su.effects if e.kind == "store_sub" and contains(e.base, SELF)]
+        for e in stores:
             n += 1
-            node = g.node_for(s)
-            # the store must be reachable only through a branch that established "name not registered yet"
-            guards = []
-            for ifn, (te, fe) in g.branch.items():
-                tst = g.stmt[ifn].test
-                t = norm(tst)
-                if isinstance(tst, ast.BoolOp) and isinstance(tst.op, ast.Or):
-                    continue  # "not registered OR something else" also overwrites registered entries
-                if " in " in t or "is None" in t or "not in" in t:
-                    neg = (" not in " in t) or ("is None" in t)
-                    guards.append(te if neg else fe)
-                    # `if name in d: raise/return` -> store only after the else side
-            ok = any(g.dominated_by(node, {gd}) for gd in guards)
-            chk.require(ok, "R09.2", f"no-overwrite:{f.short}:{norm(s.targets[0])}",
-                        "a set can be registered over an existing (class, name) entry: two sets of one type and name "
-                        "(or a lost set) in one logical file", f"{f.module.relpath}:{s.lineno}")
-    chk.floor("registry stores", n, 3)
+            slot, key = e.base, e.key
+            free = [l for l in e.pc if (l[0] == "cmp" and l[1] == "not in" and l[2] == key and l[3] == slot) or
+                    (l[0] == "cmp" and l[1] == "is" and l[3] == NONE and is_call(l[2], "get") and l[2][1][1] == slot
+                     and l[2][2] and l[2][2][0] == key)]
+            chk.require(bool(free), "R09.2", f"no-overwrite:{f.short}:{pp(slot)[:30]}",
+                        f"{f.short} stores into {pp(slot)[:40]}[{pp(key)[:20]}] under {[pp(l)[:40] for l in e.pc]}: a set "
+                        f"can be registered over an existing (class, name) entry - two sets of one type and name (or a "
+                        f"lost set) in one logical file", e.where)
+    chk.floor("registry stores", n, 2)
 
 
 def r09_3_empty(chk):
@@ -257,11 +274,16 @@ def r09_5_origin(chk):
                                             for n in walk_local(base_init.node))
     chk.require(called, "R09.5", "defaults-hook-called", "the origin's default set-up is never called", base_init.where)
     # defining origin = first item of own origin sets
+    from ..terms import SELF, A, K, NONE, contains, alternatives, return_alternatives, pp
     do = lf.lookup("defining_origin")
-    src = norm(do.node)
-    ok = "self._eflr_sets.get_all_items_for_set_type" in src and "OriginSet" in src and "[0]" in src
+    ds = chk.terms.inline(do, 3)
+    vals = [t for _, t in return_alternatives(ds) if t != NONE]
+    ok = bool(vals) and all(t[0] == "sub" and t[2] == K(0) and contains(t[1], A(SELF, "_eflr_sets")) and contains(
+        t[1], lambda x: x[0] == "global" and x[1].endswith("OriginSet")) and not contains(
+        t[1], lambda x: x[0] == "attr" and x[2] == "physical_file") for t in vals)
     chk.require(ok, "R09.5", "defining-origin-first-of-own-sets",
-                "the defining origin is not the first object of the logical file's own ORIGIN sets", do.where)
+                f"the defining origin is `{[pp(t)[:60] for t in vals]}`, not the first object of the logical file's own "
+                f"ORIGIN sets", do.where)
 
 
 def r09_6_no_memo(chk):
